@@ -46,6 +46,9 @@ def dispatch(prop, tier, seed):
     if prop == "C09":
         from . import eng_tee
         return eng_tee.check(prop, tier, seed)
+    if prop == "X01":    # extra coverage (no listed property): closing / nullcontext
+        from . import eng_simplecm
+        return eng_simplecm.check(prop, tier, seed)
     raise MachineryError(f"no check registered for {prop}")
 
 
